@@ -11,11 +11,14 @@ cleanup() { git -C /repo worktree remove --force $WT; }
 trap cleanup EXIT
 cd $WT
 mkdir -p $(dirname $DEST); cp $SD/$DEMO $DEST
+# optional extra directory a demo needs: VSEED_EXTRA="<dir in seed dir>:<dest rel path>"
+if [ -n "${VSEED_EXTRA:-}" ]; then mkdir -p $(dirname ${VSEED_EXTRA#*:}); cp -r $SD/${VSEED_EXTRA%%:*} ${VSEED_EXTRA#*:}; fi
 go test -mod=mod -vet=off -count=1 "$@" > $SD/demo_unmodified.out 2>&1; rc0=$?
 git apply $SD/patch.diff || { echo "patch does not apply"; exit 2; }
 go build ./... || { echo "does not build"; exit 2; }
 go test -mod=mod -vet=off -count=1 "$@" > $SD/demo_with_change.out 2>&1; rc1=$?
 rm -f $DEST
+if [ -n "${VSEED_EXTRA:-}" ]; then rm -rf ${VSEED_EXTRA#*:}; fi
 /verif/tools/baseline.sh $WT > $SD/baseline_with_change.out 2>&1; rcb=$?
 echo "demo unmodified rc=$rc0 (want 0); demo with change rc=$rc1 (want !=0); baseline rc=$rcb (want 0)"
 tail -1 $SD/baseline_with_change.out
